@@ -23,7 +23,8 @@ RULE = (
     "disposals, better lot arriving between disposals, many tiny lots / disposals, same instant in another UTC "
     "offset, partial lot across a year boundary with a method change) x {fifo,lifo,hifo,lofo} x year->method "
     "schedules, run through the real compute_tax (and the CLI for a slice); a case is non-trivial when at least one "
-    "fraction was emitted while >= 2 available lots of different rank existed; distinct = hash of (history, schedule)"
+    "fraction was emitted while >= 2 available lots of different rank existed; distinct = hash of (history, schedule). "
+    "The repository's own example inputs (input/*.ods read independently of RP2's parser, every method and the config's schedule, -n) are part of the workload"
 )
 ASSUMPTIONS = [
     "single asset per history (the matcher is per asset; cross-asset interaction is C17)",
